@@ -305,6 +305,46 @@ def popWhile (stop : Int) : Nat → List Tok → List (List Step) → Option (Li
         | _ :: ds' => popWhile stop fuel ts' ds'
       else some (ts, ds)
 
+/-- the `switch (t[currTok].type)` at the head of the loop body; `none` = `dataStack.back()` on an empty stack -/
+def stepA (js : Bytes) (t : Tok) (b : BState) : Option BState :=
+  match t.type with
+  | .string | .primitive =>
+    match b.dataStack with
+    | [] => none
+    | top :: ds =>
+      let v := jsonUnescape (substr js t.start t.stop)
+      let tree := updateAt top (fun n => .mk v (if t.type == .string then .verbatim else n.vtype) n.arr n.keys n.vals) b.tree
+      some { b with tree := tree, dataStack := ds, currTok := b.currTok + 1 }
+  | .object | .array => some { b with tokenStack := t :: b.tokenStack, currTok := b.currTok + 1 }
+
+/-- the rest of the loop body, `t` being the next token: leave the containers that ended, then prepare the slot the
+next token's value goes to; `none` = a `back()`/`pop_back()` on an empty stack -/
+def stepB (js : Bytes) (t : Tok) (b : BState) : Option BState :=
+  match popWhile t.stop (b.tokenStack.length + 1) b.tokenStack b.dataStack with
+  | none => none
+  | some (ts, ds) =>
+    match ts, ds with
+    | top :: _, dtop :: _ =>
+      let b := { b with tokenStack := ts, dataStack := ds }
+      let b :=
+        if top.type == .object && !(t.type == .primitive || t.type == .string) then
+          -- a container in key position: an alias of the enclosing object's slot
+          { b with dataStack := dtop :: b.dataStack }
+        else if top.type == .object then
+          let k := jsonUnescape (substr js t.start t.stop)
+          -- `compound[k]` default-inserts
+          let tree := updateAt (dtop ++ [.key k]) id b.tree
+          { b with tree := tree, dataStack := (dtop ++ [.key k]) :: b.dataStack, currTok := b.currTok + 1 }
+        else b
+      match b.tokenStack, b.dataStack with
+      | top :: _, dtop :: _ =>
+        if top.type == .array then
+          let tree := updateAt dtop (fun n => .mk n.atom n.vtype (n.arr ++ [Node.empty]) n.keys n.vals) b.tree
+          some { b with tree := tree, dataStack := (dtop ++ [.last]) :: b.dataStack }
+        else some b
+      | _, _ => none
+    | _, _ => none
+
 /-- the `do { … } while (true)` loop of `fromJSON` -/
 def build (js : Bytes) (p : Parser) (numTokens : Nat) : Nat → BState → JResult
   | 0, _ => .oob
@@ -313,50 +353,16 @@ def build (js : Bytes) (p : Parser) (numTokens : Nat) : Nat → BState → JResu
     match tokAt p numTokens b.currTok with
     | none => .oob
     | some t =>
-      -- the switch
-      let r : Option BState :=
-        match t.type with
-        | .string | .primitive =>
-          match b.dataStack with
-          | [] => none
-          | top :: ds =>
-            let v := jsonUnescape (substr js t.start t.stop)
-            let tree := updateAt top (fun n => .mk v (if t.type == .string then .verbatim else n.vtype) n.arr n.keys n.vals) b.tree
-            some { b with tree := tree, dataStack := ds, currTok := b.currTok + 1 }
-        | .object | .array => some { b with tokenStack := t :: b.tokenStack, currTok := b.currTok + 1 }
-      match r with
+      match stepA js t b with
       | none => .oob
       | some b =>
         if b.currTok ≥ p.toknext || b.tokenStack.isEmpty then .value b.tree else
         match tokAt p numTokens b.currTok with
         | none => .oob
         | some t =>
-            match popWhile t.stop (b.tokenStack.length + 1) b.tokenStack b.dataStack with
-            | none => .oob
-            | some (ts, ds) =>
-              match ts, ds with
-              | top :: _, dtop :: _ =>
-                let b := { b with tokenStack := ts, dataStack := ds }
-                let b :=
-                  if top.type == .object && !(t.type == .primitive || t.type == .string) then
-                    -- a container in key position: an alias of the enclosing object's slot
-                    { b with dataStack := dtop :: b.dataStack }
-                  else if top.type == .object then
-                    let k := jsonUnescape (substr js t.start t.stop)
-                    -- `compound[k]` default-inserts
-                    let tree := updateAt (dtop ++ [.key k]) id b.tree
-                    { b with tree := tree, dataStack := (dtop ++ [.key k]) :: b.dataStack, currTok := b.currTok + 1 }
-                  else b
-                match b.tokenStack, b.dataStack with
-                | top :: _, dtop :: _ =>
-                  let b :=
-                    if top.type == .array then
-                      let tree := updateAt dtop (fun n => .mk n.atom n.vtype (n.arr ++ [Node.empty]) n.keys n.vals) b.tree
-                      { b with tree := tree, dataStack := (dtop ++ [.last]) :: b.dataStack }
-                    else b
-                  build js p numTokens fuel b
-                | _, _ => .oob
-              | _, _ => .oob
+          match stepB js t b with
+          | none => .oob
+          | some b => build js p numTokens fuel b
 
 /-- `Data::fromJSON` -/
 def fromJSON (input : Bytes) : JResult :=
